@@ -376,6 +376,7 @@ def check_naive_bayes(case, out):
             out.fail("nb.local_independencies:mismatch", f"dep={dep!r} feats={feats!r} var={f!r} got={sorted(map(str, li.get_assertions()))} want {f} _|_ {sorted(others)} | {dep}")
 
 
+THOROUGH_SCALE = 8  # thorough-tier example counts are n["thorough"] x this (one thorough run then takes roughly 5-10 minutes on 16 cores)
 SUBCHECKS = [
     Sub("exhaustive_trails", check_trails, enumerate=_enum_cases, shards={"quick": 8, "thorough": 16},
         doc="active_trail_nodes / is_dconnected vs simple-trail enumeration on every small DAG, start, observed set"),
